@@ -197,12 +197,14 @@ structure ProgPtrs where
   typeStart : BitVec 64
   deriving DecidableEq, Repr
 
-/-- `locate_out (prog)`: `DIFF (x, prog)`; argument_types / type_start only `if (prog->type_start)` -/
+/-- `locate_out (prog)`: `DIFF (x, prog)`; inherit only `if (prog->inherit)`, argument_types / type_start only
+    `if (prog->type_start)` -/
 def locateOut (b : BitVec 64) (p : ProgPtrs) : ProgPtrs :=
   { program := p.program - b, functionTable := p.functionTable - b, functionFlags := p.functionFlags - b,
     functionOffsets := p.functionOffsets - b, functionCompressed := p.functionCompressed - b,
     strings := p.strings - b, variableTable := p.variableTable - b, variableTypes := p.variableTypes - b,
-    inherit := p.inherit - b, classes := p.classes - b, classMembers := p.classMembers - b,
+    inherit := if p.inherit ≠ 0 then p.inherit - b else p.inherit,
+    classes := p.classes - b, classMembers := p.classMembers - b,
     argumentTypes := if p.typeStart ≠ 0 then p.argumentTypes - b else p.argumentTypes,
     typeStart := if p.typeStart ≠ 0 then p.typeStart - b else p.typeStart }
 
@@ -211,17 +213,20 @@ def locateIn (b : BitVec 64) (p : ProgPtrs) : ProgPtrs :=
   { program := p.program + b, functionTable := p.functionTable + b, functionFlags := p.functionFlags + b,
     functionOffsets := p.functionOffsets + b, functionCompressed := p.functionCompressed + b,
     strings := p.strings + b, variableTable := p.variableTable + b, variableTypes := p.variableTypes + b,
-    inherit := p.inherit + b, classes := p.classes + b, classMembers := p.classMembers + b,
+    inherit := if p.inherit ≠ 0 then p.inherit + b else p.inherit,
+    classes := p.classes + b, classMembers := p.classMembers + b,
     argumentTypes := if p.typeStart ≠ 0 then p.argumentTypes + b else p.argumentTypes,
     typeStart := if p.typeStart ≠ 0 then p.typeStart + b else p.typeStart }
 
 /-- the C names of the members of `ProgPtrs`, in the order in which `locateOut` / `locateIn` (and the C functions) treat
-    them; true = relocated only `if (prog->type_start)`.  Compared with the assignments read from locate_out and
+    them, each with the member whose being non-NULL guards its relocation ("" = unconditional: `inherit` is NULL in a
+    program without inherits, `argument_types` / `type_start` without `#pragma save_types`).  Compared with the assignments read from locate_out and
     locate_in on every run (`relocation_members_tied`). -/
-def relocatedMembers : List (String × Bool) :=
-  [("program", false), ("function_table", false), ("function_flags", false), ("function_offsets", false),
-   ("function_compressed", false), ("strings", false), ("variable_table", false), ("variable_types", false),
-   ("inherit", false), ("classes", false), ("class_members", false), ("argument_types", true), ("type_start", true)]
+def relocatedMembers : List (String × String) :=
+  [("program", ""), ("function_table", ""), ("function_flags", ""), ("function_offsets", ""),
+   ("function_compressed", ""), ("strings", ""), ("variable_table", ""), ("variable_types", ""),
+   ("inherit", "inherit"), ("classes", ""), ("class_members", ""), ("argument_types", "type_start"),
+   ("type_start", "type_start")]
 
 /-- pointer members of `program_t` that do not point into the program block: `load_binary` re-creates them
     (`p->name = make_shared_string (name)`, `p->file_info = DXALLOC …`, `p->line_info = &p->file_info[…]`) -/
